@@ -243,7 +243,8 @@ def gen_tie(rng):
     rng.shuffle(order)
     ths = sorted({th, th / 2, th * 2, Fraction(0)})
     return {"kind": "tie", "mode": "E", "root": list(root), "pts": [[me(a), me(b)] for a, b in pts],
-            "order": order, "thetas": [me(t) for t in ths], "queries": list(range(len(pts))), "short": True}
+            "order": order, "thetas": [me(t) for t in ths], "queries": list(range(len(pts))), "short": True,
+            "full": True}
 
 
 GENS = {"generic": gen_generic, "clustered": gen_clustered, "collinear": gen_collinear,
@@ -260,7 +261,8 @@ def mk_case(kind, root, pts, order, thetas=None, queries=None, mode="E", rng=Non
     short = all((abs(a) <= 4 and abs(b) <= 4 and (a * 4096).denominator == 1 and (b * 4096).denominator == 1)
                 for a, b in pts)
     return {"kind": kind, "mode": mode, "root": list(root), "pts": [[me(a), me(b)] for a, b in pts],
-            "order": list(order), "thetas": list(thetas or TH_STD), "queries": queries, "short": short}
+            "order": list(order), "thetas": list(thetas or TH_STD), "queries": queries, "short": short,
+            "full": n <= 4 and kind != "ranges"}
 
 
 def gen_cases(rng, budget):
@@ -309,8 +311,9 @@ def gen_perm_cases(rng, sizes):
         x0, x1, y0, y1, x, y, hw, hh = root_box(root)
         pts = gen_generic(rng, root, 1) * 2 + [(x, rnd_grid(rng, y0, y1, 2))] + gen_edges(rng, root, 1) + gen_clustered(rng, root, 3)
         pts = pts[:n]
-        for perm in itertools.permutations(range(len(pts))):
+        for pi, perm in enumerate(itertools.permutations(range(len(pts)))):
             cases.append(mk_case("perm%d" % n, root, pts, perm, thetas=["0:0", "1:-1", "1:0"], rng=rng))
+            cases[-1]["full"] = (pi % 17 == 0)
     return cases
 
 
@@ -436,8 +439,9 @@ def run_impl(ctx, exe, cases):
     return res
 
 
-def run_model(ctx, mexe, cases, full_limit=7):
-    inp = "".join(case_line_model(k, c, len(c["pts"]) <= full_limit) for k, c in enumerate(cases))
+def run_model(ctx, mexe, cases):
+    """full = also evaluate the extracted `forces` itself over exact rationals (costly: big denominators)"""
+    inp = "".join(case_line_model(k, c, bool(c.get("full"))) for k, c in enumerate(cases))
     r = ctx.run(mexe, inp, timeout=900)
     recs, ended = split_records(r.out, len(cases))
     if r.rc != 0 or len(ended) != len(cases):
@@ -722,14 +726,23 @@ def expected_forces(c, pts, m, kids, stats):
     out = {}
     cells = m["cells"]
     short = c.get("short", False)
+    # per cell: floats of the centre of mass, max(hh,hw) exact and float, rounding bound of the dumped double com
+    pre = []
+    for cell in cells:
+        kind, x, y, hw, hh, j, cnt, cum, c0, c1 = cell
+        mm = max(hh, hw)
+        pre.append((float(c0), float(c1), mm, float(mm), float(com_bound(cell, cum)) if kind == "N" and cum > 0 else 0.0,
+                    max(abs(float(x)) + float(hw), abs(float(y)) + float(hh))))
     for ti, ths in enumerate(c["thetas"]):
         th = fr(ths)
         th2 = th * th
+        th2f = float(th2)
         for qi in c["queries"]:
             ids = m["G"].get((ti, qi))
             if ids is None:
                 continue
             p = pts[qi]
+            pf0, pf1 = float(p[0]), float(p[1])
             robust = True
             walk = []
             stack = [0]
@@ -743,11 +756,17 @@ def expected_forces(c, pts, m, kids, stats):
                         continue
                     walk.append(k)
                     continue
-                mm = max(hh, hw)
-                D = (p[0] - c0) ** 2 + (p[1] - c1) ** 2
-                lhs, rhs = mm * mm, th2 * D
-                summ = (lhs < rhs) and D > 0
-                if th > 0:
+                c0f, c1f, mm, mmf, e, mag = pre[k]
+                Df = (pf0 - c0f) ** 2 + (pf1 - c1f) ** 2
+                lf, rf = mmf * mmf, th2f * Df
+                if th2f == 0.0:
+                    summ = False
+                elif Df > 1e-12 * mag * mag and abs(lf - rf) > 1e-3 * max(lf, rf):
+                    summ = lf < rf                  # far from the threshold: floats decide, robust
+                else:
+                    D = (p[0] - c0) ** 2 + (p[1] - c1) ** 2
+                    lhs, rhs = mm * mm, th2 * D
+                    summ = (lhs < rhs) and D > 0
                     if lhs == rhs:
                         # exact tie: the doubles are exact only for a two-point cell and short coordinates
                         if not (short and cum <= 2):
@@ -755,9 +774,8 @@ def expected_forces(c, pts, m, kids, stats):
                         else:
                             stats["exact_ties"] += 1
                     else:
-                        e = float(com_bound(cells[k], cum))
                         sd = math.sqrt(float(D)) * 1.000001
-                        err = float(th2) * (2 * e * sd + e * e + float(D) * 2.0 ** -44)
+                        err = th2f * (2 * e * sd + e * e + float(D) * 2.0 ** -44)
                         if abs(float(lhs - rhs)) <= err:
                             robust = False
                 if summ:
@@ -766,12 +784,11 @@ def expected_forces(c, pts, m, kids, stats):
                     stack.extend(reversed(kids[k]))
             if walk != ids:
                 raise RuntimeError("internal: traversal of checks/c18.py disagrees with forces_cells: %r vs %r" % (walk, ids))
-            px, py = float(p[0]), float(p[1])
             f0, f1, sq = [], [], []
             for k in ids:
                 cum, c0, c1 = cells[k][7], cells[k][8], cells[k][9]
                 bx, by = float(p[0] - c0), float(p[1] - c1)
-                q = 1.0 / (1.0 + float((p[0] - c0) ** 2 + (p[1] - c1) ** 2))
+                q = 1.0 / (1.0 + bx * bx + by * by)
                 f0.append(cum * q * q * bx)
                 f1.append(cum * q * q * by)
                 sq.append(cum * q)
@@ -852,6 +869,7 @@ def evaluate(ctx, exe, mexe, cases, stats, with_model=True, record=True):
                            % (ci, cum, cell[9], cell[10], float(ex0), float(ex1)))
                     break
     if with_model:
+        check_auto_roots(ctx, mexe, cases, impls, stats)
         ex_cases = [k for k, c in enumerate(cases) if not c["kind"].startswith("tol") and k not in skipped]
         models = run_model(ctx, mexe, [cases[k] for k in ex_cases])
         for k, ml in zip(ex_cases, models):
@@ -876,6 +894,55 @@ def evaluate(ctx, exe, mexe, cases, stats, with_model=True, record=True):
             if why:
                 ctx.violation(cases[k], why, signature=sigs[k])
     return list(zip(fails, sigs))
+
+
+def check_auto_roots(ctx, mexe, cases, impls, stats):
+    """mode A (QuadTree(Y, N), the constructor tsne.hpp uses): the root box of the real tree against (a) the
+    same arithmetic replayed in Python doubles, bit for bit, and (b) the extracted auto_root over exact rationals
+    with slack = the double 1e-5, under a rounding bound"""
+    ks = [k for k, c in enumerate(cases) if c["mode"] == "A" and impls[k] is not None]
+    if not ks:
+        return
+    inp = []
+    for j, k in enumerate(ks):
+        c = cases[k]
+        t = ["A", str(j), me(1e-5), str(len(c["pts"]))]
+        for a, b in c["pts"]:
+            t += [a, b]
+        inp.append(" ".join(t) + "\n")
+    r = ctx.run(mexe, "".join(inp), timeout=600)
+    recs, ended = split_records(r.out, len(ks))
+    if r.rc != 0 or len(ended) != len(ks):
+        raise vlib.BuildError("model driver (auto_root) failed: rc=%s %s" % (r.rc, r.err[-500:]))
+    for j, k in enumerate(ks):
+        c, d = cases[k], impls[k]
+        P = [(float(fr(a)), float(fr(b))) for a, b in c["pts"]]
+        n = len(P)
+        mean, mn, mx = [0.0, 0.0], [1.7976931348623157e308] * 2, [-1.7976931348623157e308] * 2
+        for p in P:
+            for dd in range(2):
+                mean[dd] += p[dd]
+                if p[dd] < mn[dd]:
+                    mn[dd] = p[dd]
+                if p[dd] > mx[dd]:
+                    mx[dd] = p[dd]
+        mean = [mean[0] / float(n), mean[1] / float(n)]
+        want = (mean[0], mean[1], max(mx[0] - mean[0], mean[0] - mn[0]) + 1e-5,
+                max(mx[1] - mean[1], mean[1] - mn[1]) + 1e-5)
+        got = tuple(d["cells"][0][1:5])
+        stats["auto_roots"] += 1
+        if got != want:
+            ctx.mismatch(c, "QuadTree(Y,N) root box %r, the constructor's arithmetic gives %r" % (got, want))
+            continue
+        line = [l for l in recs[j] if l.startswith("ROOT")][0].split()[1:]
+        if line[0] == "none":
+            ctx.mismatch(c, "model auto_root = None")
+            continue
+        ex = [hexq(x) for x in line]
+        mag = max(max(abs(p[0]), abs(p[1])) for p in P) + 1e-5
+        bound = Fraction(n + 4, 1 << 50) * Fraction(mag)
+        if any(abs(Fraction(g) - e) > bound for g, e in zip(got, ex)):
+            ctx.mismatch(c, "QuadTree(Y,N) root box %r vs model auto_root %r" % (got, [float(e) for e in ex]))
 
 
 def compare(c, d, m, pts, stats):
@@ -953,7 +1020,7 @@ def shrink(ctx, exe, mexe, case, stats, sig=None):
 
 def new_stats():
     return {"allpairs": 0, "spec_runs": 0, "force_evals": 0, "force_compared": 0, "force_skipped_nonrobust": 0,
-            "force_full": 0, "exact_ties": 0, "f25_cracks": 0}
+            "force_full": 0, "exact_ties": 0, "f25_cracks": 0, "auto_roots": 0}
 
 
 def run_batch(ctx, exe, mexe, cases, stats, with_model=True):
@@ -996,8 +1063,13 @@ def corpus_cases(ctx):
 def run(ctx):
     rng = ctx.rng
     ctx.coq()
+    t_coq = ctx.elapsed()
     exe = ctx.cpp("harness/c18.cpp")
+    t_cpp = ctx.elapsed()
     mexe = ctx.extract()
+    t_ext = ctx.elapsed()
+    ctx.note("wall clock: coq %.0f s (includes waiting for the shared build lock), C++ build %.0f s, extraction + ocamlopt %.0f s"
+             % (t_coq, t_cpp - t_coq, t_ext - t_cpp))
     stats = new_stats()
     bud, perm_sizes, ntol = budgets(ctx)
     cases = corpus_cases(ctx)
@@ -1008,6 +1080,7 @@ def run(ctx):
     n = 0
     for i in range(0, len(cases), 600):
         n += run_batch(ctx, exe, mexe, cases[i:i + 600], stats)
+    ctx.note("wall clock: cases %.0f s" % (ctx.elapsed() - t_ext))
     searched = 0
     if ctx.is_unshown() and not ctx.has_violation():
         # search phase: the proof or the correspondence broke; look for an input on which the implementation
